@@ -312,6 +312,25 @@ def main():
                     p = os.path.join(tmpd, "m%06d" % k); k += 1
                     open(p, "wb").write(blob)
                     jobs.append((rng.choice(("LM", "LP")), rng.randrange(2), -1, p, "mutant-%s:%s" % (kind, os.path.basename(f))))
+            # titles that fill the whole name field: formats that store a title LENGTH (Digital Tracker's D.T. chunk, OctaMED's expansion
+            # data) with 64 and more bytes of text behind it - the public name must still be a terminated string
+            for f in V.corpus_files():
+                fl = f.lower()
+                if not fl.endswith((".dtm", ".med")) or os.path.getsize(f) > 300000: continue
+                d = open(f, "rb").read(); outb = []
+                if d[:4] == b"D.T." and len(d) > 30:
+                    size = struct.unpack(">I", d[4:8])[0]
+                    if 14 <= size <= 142 and 8 + size <= len(d):
+                        for n in (63, 64, 65, 128):
+                            body = d[8:22] + bytes(65 + (i % 26) for i in range(n)); outb.append(b"D.T." + struct.pack(">I", len(body)) + body + d[8 + size:])
+                elif d[:3] == b"MMD" and len(d) > 64:
+                    exp = struct.unpack(">I", d[32:36])[0]
+                    if exp and exp + 52 <= len(d):
+                        for n in (63, 64, 65, 200):
+                            b2 = bytearray(d) + bytes(97 + (i % 26) for i in range(n + 8)); struct.pack_into(">II", b2, exp + 44, len(d), n); outb.append(bytes(b2))
+                for blob in outb:
+                    p = os.path.join(tmpd, "t%06d" % k); k += 1; open(p, "wb").write(blob)
+                    jobs.append((rng.choice(("LM", "LP")), 0, -1, p, "long-title:%s" % os.path.basename(f)))
         inp = "".join("%s %d %d 1 %s\n" % (e, s, m, p) for e, s, m, p, _ in jobs)
         r = V.run([drv], inp=inp, env=env, timeout=3000)
         out = r.stdout.split("\n")
